@@ -8,8 +8,12 @@
 # Nothing is executed: terms are syntactic normal forms over symbols.
 
 import ast
+import itertools
 import math
+import os
 import re
+import shutil
+import tempfile
 
 from report import AnalysisError, STAGE_FAILED
 from pyfront import Repo, CFG, canon
@@ -17,7 +21,7 @@ from pyutil import rel
 from consteval import Ev, Unknown, Raised
 import exprnf as X
 from exprnf import C, V
-from cfront import TU, kids, kind, strip, walk, ctext, CLower, fold_env, wrap_int
+from cfront import TU, kids, kind, strip, walk, ctext, CLower, fold_env, wrap_int, calls_to, call_args
 
 EXPLANATION = (
     "Forward substitution (no execution) of gsm_fn2gsmtime / gsm_gsmtime2fn (bundled libosmocore), l1s_time_inc "
@@ -3319,7 +3323,7 @@ def r3_increment(L, repo, mods):
     if mods is None:
         raise AnalysisError("%s(): the update is not in the recognised carry-chain shape and the decomposition it would be folded "
                             "against (R1) could not be analysed" % fname)
-    bad, stats = fold_increment(final, tp, dl)
+    bad, stats = fold_increment(final, tp, dl, lambda m: decomposition_leaves(L, tu, f, tp, m))
     if effs == effs_want and all(assume(final[x], D1, False) == post(x) for x in comps):
         stats += "; the delta != 1 arm is gsm_fn2gsmtime(time, FN') itself (closed for every delta)"
     for x in comps:
@@ -3333,6 +3337,66 @@ def r3_increment(L, repo, mods):
         L.extra.setdefault("decided_by_enumeration", []).append(
             "l1s_time_inc: every component equals the decomposition of (fn + delta) mod 2715648 %s" % stats)
         L.structural(sname, structural)
+
+
+def _set_by_decomposition_alone(L, member):
+    """the premise of a free member: some function of firmware layer1 other than l1s_time_inc() sets a time object that
+    l1s_time_inc() steps (the same lvalue handed to both) with gsm_fn2gsmtime() and does not mention `member`"""
+    d = os.path.join(L.repo, os.path.dirname(F_SYNC))
+    stepped, sets = set(), []
+    for name in sorted(x for x in os.listdir(d) if x.endswith(".c")):
+        with open(os.path.join(d, name), errors="replace") as fh:
+            src = fh.read()
+        if "gsm_fn2gsmtime" not in src and "l1s_time_inc" not in src:      # locating only: the facts come from the AST
+            continue
+        # cfront's stub include path has no <inttypes.h> (PRIu32 in printf formats): a declarations-only stand-in
+        tmp = tempfile.mkdtemp(prefix="c19l1-", dir=os.environ.get("TMPDIR") or "/var/tmp")
+        try:
+            with open(os.path.join(tmp, "inttypes.h"), "w") as fh:
+                fh.write("#include <stdint.h>\n#define PRIu32 \"u\"\n#define PRId32 \"d\"\n#define PRIx32 \"x\"\n"
+                         "#define PRIu16 \"u\"\n#define PRIu8 \"u\"\n#define PRIu64 \"llu\"\n")
+            t = TU(L.repo, "fw", "layer1/" + name, L=L, extra_flags=("-idirafter", tmp))
+        finally:
+            shutil.rmtree(tmp, ignore_errors=True)
+        for fn, fd in sorted(t.functions.items()):
+            if not any(kind(c) == "CompoundStmt" for c in kids(fd)):
+                continue
+            body = t.body(fd)
+            for c in calls_to(body, "l1s_time_inc"):
+                if call_args(c):
+                    stepped.add(ctext(call_args(c)[0]))
+            if fn != "l1s_time_inc" and not any(kind(n) == "MemberExpr" and n.get("name") == member for n in walk(body)):
+                sets += [ctext(call_args(c)[0]) for c in calls_to(body, "gsm_fn2gsmtime") if call_args(c)]
+    return bool(stepped & set(sets))
+
+
+def decomposition_leaves(L, tu, f, tp, member):
+    """what a member of l1s_time_inc()'s time holds after gsm_fn2gsmtime(time, FN): ("term", t over FN) when the
+    decomposition stores it, ("free", lo, hi) -- the ends of its integer type -- when it leaves it alone; None when the
+    member is not an integer member of the record or the decomposition cannot be analysed"""
+    prm = tu.fparams(f)[0]
+    m = re.search(r"struct (\w+)", prm.get("type", {}).get("qualType") or "")
+    rng = field_ranges(tu, m.group(1)) if m else {}
+    if member not in rng:
+        return None
+    ut = _utils_tu(L)
+    g = ut.func("gsm_fn2gsmtime")
+    ps = ut.fparams(g)
+    if len(ps) != 2:
+        return None
+    sym = CSym(ut)
+    out = sym.run(g)
+    if sym.effects or kept_objects(ut, g):
+        return None
+    key = "%s->%s" % (ps[0].get("name"), member)
+    raw = sym.final(out, key)
+    if raw == V(key):
+        if not _set_by_decomposition_alone(L, member):
+            return None
+        return ("free",) + tuple(rng[member])
+    if {v for v in subterms(raw) if v[0] == "v"} - {V(ps[1].get("name"))}:
+        return None
+    return ("term", euclid(prune(renorm(raw, lambda t: V("FN") if t == V(ps[1].get("name")) else None), {V("FN"): (0, HYPERFRAME - 1)})))
 
 
 def assume(t, atom, val):
@@ -3390,13 +3454,38 @@ def sweep(found, want, n=HYPERFRAME):
         raise AnalysisError("term cannot be folded over 0..%d: %s" % (n - 1, e))
 
 
-def fold_increment(final, tp, dl):
+def fold_increment(final, tp, dl, entry_member=None):
     """({component: text of a differing witness}, text of what was folded).  The final value of each component of
     l1s_time_inc as a term over (FN, delta): entry fields replaced by the decomposition of FN, the result of a
-    gsm_fn2gsmtime call by the decomposition of its argument."""
+    gsm_fn2gsmtime call by the decomposition of its argument.
+    A further member of the time the update READS (entry_member(name) -> ("free", lo, hi) / ("term", t over FN) / None):
+    the running time is also produced by gsm_fn2gsmtime() alone (the decomposition is how a time is set), so a member the
+    decomposition does not write holds whatever was there -- the update is folded with both ends of the member's type
+    there and must yield the decomposition of the new frame number for each; a member it writes holds that term."""
     FN, D = V("FN"), V("DELTA")
     dec = dict(spec_decomposition(FN), fn=FN)
     flds = {V("%s->%s" % (tp, x)): dec[x] for x in dec}
+    free = {}
+    if entry_member is not None:
+        pre = "%s->" % tp
+        for v in sorted({v for x in final for v in subterms(final[x]) if v[0] == "v" and v[1].startswith(pre) and v not in flds}):
+            e = entry_member(v[1][len(pre):])
+            if e is not None and e[0] == "term":
+                flds[v] = e[1]
+            elif e is not None and e[0] == "free":
+                free[v] = (e[1], e[2])
+    if free:
+        bad = {}
+        for vals in itertools.product(*[free[v] for v in sorted(free)]):
+            asg = dict(zip(sorted(free), vals))
+            fixed = {x: renorm(final[x], lambda t: C(asg[t]) if t in asg else None) for x in final}
+            b, stats = fold_increment(fixed, tp, dl)
+            note = ", ".join("%s = %d" % (v[1], asg[v]) for v in sorted(asg))
+            for x in b:
+                bad.setdefault(x, "%s on entry (gsm_fn2gsmtime() does not write %s: the member holds any value after a time was "
+                                  "set by the decomposition), %s" % (note, ", ".join(v[1] for v in sorted(asg)), b[x]))
+        return bad, stats + "; with %s at both ends of %s type on entry (not written by gsm_fn2gsmtime)" % (
+            ", ".join(v[1] for v in sorted(free)), "its" if len(free) == 1 else "their")
 
     def leaf(t):
         if t in flds:
